@@ -181,7 +181,43 @@ def rule_line_number(prog, root, fixture=False, formula=None):
                 if len(a) > fmt_i + 1:
                     printed = a[fmt_i + 1]
         if printed is None:
-            raise AnalysisBroken("cannot find the value print_target_line_number prints")
+            # the printing is delegated: `return print_number(<value>, ...)` - the helper must print that parameter
+            # with a numeric conversion on every path (not only when it is non-zero)
+            for n in fn.walk():
+                if n.get("k") == "CallExpr" and n.get("fn") and prog.by_key.get(n["fn"]) and call_args(n):
+                    for t in prog.call_targets(fn, n):
+                        for i, p_ in enumerate(t.params):
+                            if not p_.get("w") or i >= len(call_args(n)):
+                                continue
+                            prints = []
+                            for x in t.walk():
+                                if x.get("k") == "CallExpr" and notpl(x.get("q") or "") in ("fprintf", "printf"):
+                                    fa = call_args(x)
+                                    fi = 1 if notpl(x.get("q")) == "fprintf" else 0
+                                    fmt = strip_all(fa[fi]) if len(fa) > fi else None
+                                    if fmt is not None and fmt.get("k") == "StringLiteral" and re.search(r"%[-0 +#*]*\d*[lhz]*[udi]", fmt.get("s") or "") and \
+                                            len(fa) > fi + 1 and any(y.get("k") == "DeclRefExpr" and y.get("d") == p_["d"] for y in walk(fa[-1])):
+                                        prints.append(x)
+                            if not prints:
+                                continue
+                            printed = call_args(n)[i]
+                            cond_dep = None
+                            for x in prints:
+                                for anc in t.ancestors(x):
+                                    c_ = None
+                                    if anc.get("k") == "IfStmt":
+                                        c_ = anc["c"][anc["parts"]["cond"]]
+                                    elif anc.get("k") == "ConditionalOperator":
+                                        c_ = anc["c"][0]
+                                    if c_ is not None and any(y.get("k") == "DeclRefExpr" and y.get("d") == p_["d"] for y in walk(c_)):
+                                        cond_dep = (t, c_)
+                            r.add("%s::%s::printed-always" % (t.relfile(), t.qn), t.loc(prints[0]), cond_dep is None,
+                                  "the number is printed on every path" if cond_dep is None else
+                                  "%s prints the decoded target only under `%s`: for some targets (line 0) nothing is printed and "
+                                  "`GOTO0` lists as `GOTO`" % (t.qn, show(cond_dep[1])[:40]))
+        if printed is None:
+            r.undecided.append("%s: cannot find the value print_target_line_number prints" % fn.loc(fn.body))
+            continue
         try:
             got = ev._expr(fn, printed, env, 0)
         except Unsupported as e:
